@@ -20,6 +20,7 @@ from . import boot, genwf
 from .boot import VClock
 
 _m: dict[str, Any] = {}
+ABORTS: list = []  # (virtual time, run_id) of every IdleReleaseDecorator._abort_inner_run call in this process
 
 
 def M():
@@ -36,6 +37,14 @@ def M():
         from llama_agents.server._store.sqlite.sqlite_workflow_store import SqliteWorkflowStore
 
         boot.patch_datetime(idle_mod, pers_mod, srt_mod, service_mod, aws, mws)
+        # harness-side observer (no repository change): when does the idle-release decorator abort an inner run?
+        _orig_abort = idle_mod.IdleReleaseDecorator._abort_inner_run
+
+        def _abort_inner_run(self, run_id):
+            ABORTS.append({"t": VClock.t, "run_id": run_id})
+            return _orig_abort(self, run_id)
+
+        idle_mod.IdleReleaseDecorator._abort_inner_run = _abort_inner_run
         _m.update(
             server_mod=server_mod,
             idle_mod=idle_mod,
@@ -70,8 +79,12 @@ def make_store(kind: str, tmpdir: str | None):
 class StoreProxy:
     """Forwards everything to the real store; can freeze the run after the k-th persisted tick and fail chosen writes."""
 
-    def __init__(self, inner, *, crash_after_tick: int | None = None, fail_plan: dict | None = None):
+    def __init__(self, inner, *, crash_after_tick: int | None = None, fail_plan: dict | None = None, yields: list | None = None):
         self._inner = inner
+        # a store with real I/O suspends inside its calls; the in-process stores never do.  `yields` = generated numbers of
+        # event-loop yields inserted before each store call (cycled), so that races around store access can materialise.
+        self._yields = list(yields or [])
+        self._yi = 0
         self.crash_after_tick = crash_after_tick
         self.n_ticks = 0
         self.crashed = asyncio.Event()
@@ -81,7 +94,35 @@ class StoreProxy:
         self.injected = 0
 
     def __getattr__(self, name):
-        return getattr(self._inner, name)
+        attr = getattr(self._inner, name)
+        if not self._yields or name.startswith("_") or not callable(attr):
+            return attr
+        import inspect
+
+        if inspect.iscoroutinefunction(attr):
+
+            async def with_yields(*a, **k):
+                await self._pause()
+                return await attr(*a, **k)
+
+            return with_yields
+        if inspect.isasyncgenfunction(attr):
+
+            async def gen_with_yields(*a, **k):
+                await self._pause()
+                async for item in attr(*a, **k):
+                    yield item
+
+            return gen_with_yields
+        return attr
+
+    async def _pause(self) -> None:
+        if not self._yields:
+            return
+        n = self._yields[self._yi % len(self._yields)]
+        self._yi += 1
+        for _ in range(n):
+            await asyncio.sleep(0)
 
     def _should_fail(self, name: str) -> bool:
         i = self.calls.get(name, 0)
@@ -93,6 +134,7 @@ class StoreProxy:
         return False
 
     async def append_tick(self, run_id, tick_data):
+        await self._pause()
         await self._inner.append_tick(run_id, tick_data)
         self.n_ticks += 1
         if self.crash_after_tick is not None and self.n_ticks >= self.crash_after_tick:
@@ -100,6 +142,7 @@ class StoreProxy:
             await asyncio.Event().wait()  # the process is gone: this write never "returns"
 
     async def update_handler_status(self, run_id, **kw):
+        await self._pause()
         if self._should_fail("update_handler_status"):
             raise OSError("injected store write failure")
         await self._inner.update_handler_status(run_id, **kw)
@@ -107,12 +150,14 @@ class StoreProxy:
             self.status_writes.append((VClock.t, run_id, kw["status"]))
 
     async def update(self, handler):
+        await self._pause()
         if self._should_fail("update"):
             raise OSError("injected store write failure")
         await self._inner.update(handler)
         self.status_writes.append((VClock.t, handler.run_id, handler.status))
 
     async def append_event(self, run_id, envelope):
+        await self._pause()
         if self._should_fail("append_event"):
             raise OSError("injected store write failure")
         return await self._inner.append_event(run_id, envelope)
@@ -345,8 +390,32 @@ def reply_factory(case: dict, log: dict):
                 got = list(s.get("got", [])) + [ev.get("n")]
                 s["got"] = got
             ent["exit"] = "returned"
+            if case.get("fanout"):
+                # hand the reply on to a second step with ctx.send_event (the event sits in the adapter mailbox when this step ends)
+                ctx.send_event(ge.E1(n=ev.get("n")))
+                return None
             if len(got) >= total:
                 return ge.GStop(result={"got": sorted(got), "order": got})
+            return None
+        except asyncio.CancelledError:
+            ent["exit"] = "cancelled"
+            raise
+        finally:
+            ent["t_out"] = VClock.t
+
+    async def post(self, ctx, ev):
+        ent = {"n": ("post", ev.get("n")), "life": log["life"], "t_in": VClock.t, "t_out": None, "exit": None}
+        log["body"].append(ent)
+        try:
+            if case.get("post_work"):
+                await asyncio.sleep(case["post_work"])
+            async with ctx.store.edit_state() as s:
+                posts = list(s.get("posts", [])) + [ev.get("n")]
+                s["posts"] = posts
+                got = list(s.get("got", []))
+            ent["exit"] = "returned"
+            if len(posts) >= total:
+                return ge.GStop(result={"got": sorted(got), "order": got, "posts": sorted(posts)})
             return None
         except asyncio.CancelledError:
             ent["exit"] = "cancelled"
@@ -364,7 +433,8 @@ def reply_factory(case: dict, log: dict):
     U = typing.Union
     members = {
         "start": step(ann(start, "start", ge.GStart, U[ge.GStop, Nn])),
-        "on_reply": step(num_workers=case.get("workers", 1))(ann(on_reply, "on_reply", ge.Reply, U[ge.GStop, Nn])),
+        "on_reply": step(num_workers=case.get("workers", 1))(ann(on_reply, "on_reply", ge.Reply, U[ge.GStop, ge.E1, Nn])),
+        "post": step(num_workers=2)(ann(post, "post", ge.E1, U[ge.GStop, Nn])),
     }
     cls = type("ReplyWf", (Workflow,), members)
     return lambda: cls(timeout=None)
